@@ -107,7 +107,7 @@ class Inst:
         if self.occ is None:
             return None
         if self.occ[0] == "jw4":
-            return {"model": "jw", "nso": 4, "ne": 2, "spin": 0, "utd": False}
+            return {"model": "jw", "nso": 4, "ne": 2, "spin": 0, "utd": True}   # the UCC1/UCC3 circuits use the up-then-down register
         m = mol(self.occ[1])
         if self.occ[0] == "hcb":
             return {"model": "hcb", "nso": int(m.n_active_mos), "ne": int(m.n_active_electrons), "spin": 0, "utd": False}
@@ -1094,7 +1094,8 @@ def run(chk):
     work = [(inst, planner, chk.seed) for inst in insts]
     # seeded defect: the pipeline must flag it
     broken = Inst("control/BrokenAnsatz", "control", "-", BrokenAnsatz)
-    bplan = [(b, "clifford", "mod") for b in pools["E2"][:40]]
+    bplan = [(b, "clifford", "mod") for b in pools["E2"]
+             if any(act == "Update" and len(set(sym)) > 1 for act, sym, _ in b.sig)][:30]
     procs = int(os.environ.get("VERIF_PROCS", "12"))
     res = run_parallel(work + [(broken, bplan, chk.seed)], procs)
     t2 = time.time()
